@@ -7,6 +7,8 @@ use crate as bevy_cobweb;
 pub mod ecs;
 pub mod react;
 pub mod result;
+#[cfg(feature = "verif")]
+pub mod verif;
 
 //API exports
 pub use bevy_cobweb_derive::*;
